@@ -110,7 +110,13 @@ def discharge(obligations, rounds=None, jobs=None, seed=0, both=False, progress=
                 if obligations[k].result is None:
                     obligations[k].result, obligations[k].backend = "skipped", None
         list(pool.map(run_group, groups.values()))
-        pending = [k for k in pending if obligations[k].kind != "CANARY"]
+        # probes: each on its own (every one must stay satisfiable)
+        probes = [k for k in pending if obligations[k].kind == "PROBE"]
+        for k, be, res, dt in pool.map(lambda k: attempt(k, ORDER[0], canary_timeout, 0), probes):
+            ob = obligations[k]
+            ob.result, ob.backend, ob.time = res, be, round(dt, 3)
+            ob.all_results.append((be, res, round(dt, 3)))
+        pending = [k for k in pending if obligations[k].kind not in ("CANARY", "PROBE")]
         for rno, (be, t, sd) in enumerate(rounds):
             if not pending:
                 break
